@@ -46,6 +46,10 @@ def run(b, ps, tier, seed):
         violations.append(C.Violation("the premise tc_annotations_typed of the safety theorem fails on an accepted program of the fragment: %s" % [i for i, _ in not_typed[:3]],
                                       {"property": PROP, "kind": "unproven", "no_longer_checks": [{"what": "premise check (static_typed_b on the annotated program)", "detail": not_typed[0][1][:800]}]},
                                       found_input=False))
+    acov, avio = P.accepted_set_check(b, PROP, seed, tier, is_bad)
+    if not violations:
+        violations.extend(avio)
+    pcov.update(acov)
     extra = {"impl_runs_with_error": errs, "model_runs_with_error": len(model_errs)}
     extra.update(pcov)
     cov = R.coverage(d, extra)
